@@ -3,6 +3,9 @@ import FFSM2.Props.C17
 import FFSM2.Lemmas.BlindWorld
 import FFSM2.Lemmas.GuardCount
 import FFSM2.Props.C04
+import FFSM2.Props.C09
+import FFSM2.Lemmas.SilentGen
+import FFSM2.Lemmas.NoPlan
 /-!
 # Run-level theorems: the per-call theorems lifted to every history
 
@@ -137,8 +140,8 @@ theorem load_life (env : Env) (hwf : env.cfg.WF) (c sc : Core) (hsc : CoreOk env
 
 /-- every accepted API call runs a correctly paired piece of lifecycle, from the core's active state to
     its new active state; under automatic activation the machine is active afterwards -/
-theorem apiStep_life {w : World} {env : Env} (hwf : env.cfg.WF) (hw : WorldOk env.cfg w) {slot : Option Core} {c : Core} {f : Step}
-    (h : ApiStep env.cfg w env slot c f) (hauto : env.cfg.manual = false → ∀ c0, slot = some c0 → c0.active ≠ 255) :
+theorem apiStep_life {w : World} {env : Env} (hwf : env.cfg.WF) (hw : WorldOk env.cfg w) {tag : ApiTag} {slot : Option Core} {c : Core} {f : Step}
+    (h : ApiStep env.cfg w env tag slot c f) (hauto : env.cfg.manual = false → ∀ c0, slot = some c0 → c0.active ≠ 255) :
     actOf slot = c.active ∧
     LifePath c.active (sig (f { core := c }).2) (f { core := c }).1.core.active ∧
     (env.cfg.manual = false → (f { core := c }).1.core.active ≠ 255) := by
@@ -181,7 +184,12 @@ theorem apiStep_life {w : World} {env : Env} (hwf : env.cfg.WF) (hw : WorldOk en
     have hs : sig (extStatus env id ok { core := c }).2 = [] := sig_logEv _ _ _
     rw [ha, hs]
     exact ⟨rfl, LifePath.nil _, fun hm => hauto hm _ rfl⟩
-  | planEdit c a hp =>
+  | planAppend c o d p hp =>
+    have ha := (stable_applyAction env 255 (.planAppend o d p) { core := c }).1
+    have hs := sig_of_noLife (silent_applyAction methodPred_isLife env 255 (.planAppend o d p)) { core := c }
+    rw [ha, hs]
+    exact ⟨rfl, LifePath.nil _, fun hm => hauto hm _ rfl⟩
+  | planEdit c a _ hp =>
     have ha := (stable_applyAction env 255 a { core := c }).1
     have hs := sig_of_noLife (silent_applyAction methodPred_isLife env 255 a) { core := c }
     rw [ha, hs]
@@ -234,7 +242,7 @@ theorem C01_stepAll (cfg : Cfg) (hwf : cfg.WF) (beh : Beh) (w : World) (k : Nat)
   | step op' hs hd =>
     cases hs with
     | rejected name => exact LifePath.nil _
-    | call slot c f ret name hget hf =>
+    | call tag slot c f ret name htag hget hf =>
       obtain ⟨e1, e2, _⟩ := apiStep_life (env := ⟨cfg, beh, op.inst, k⟩) hwf hw hf
         (fun hm c0 e => ha hm _ c0 (by rw [hget, e]))
       rw [onCore_fst, onCore_snd, World.get_put_same, sig_append, sig_api, List.append_nil, hget, e1]
@@ -242,7 +250,7 @@ theorem C01_stepAll (cfg : Cfg) (hwf : cfg.WF) (beh : Beh) (w : World) (k : Nat)
     | destroyManual c name hop hm hget =>
       rcases hd with rfl | hd
       · exact absurd hop (hdes hm)
-      · exact absurd hop (hd _)
+      · exact absurd hop (hd.1 _)
     | destroyAuto c name hm hget =>
       obtain ⟨f1, f2⟩ := C01_finalExit ⟨cfg, beh, op.inst, k⟩ { core := c }
       rw [World.get_put_same, sig_append, sig_api, List.append_nil, hget, f2]
@@ -259,7 +267,7 @@ theorem stepAll_autoActive (cfg : Cfg) (hwf : cfg.WF) (beh : Beh) (w : World) (k
   | step op' hs hd =>
     cases hs with
     | rejected name => exact ha
-    | call slot c f ret name hget hf =>
+    | call tag slot c f ret name htag hget hf =>
       obtain ⟨_, _, e3⟩ := apiStep_life (env := ⟨cfg, beh, op.inst, k⟩) hwf hw hf
         (fun hm c0 e => ha hm _ c0 (by rw [hget, e]))
       rw [onCore_fst]
@@ -419,8 +427,8 @@ theorem initialEnter_guard_counts (env : Env) (hL : env.cfg.L ≤ 255) (s : St) 
 /-- every accepted API call: at most `L` exit-guard evaluations and at most `2·(L+1)` entry-guard
     evaluations (activation evaluates the root's and one state's entry guard per round, one round more
     than the substitution limit; every other call at most `L`) -/
-theorem apiStep_guard_bound {w : World} {env : Env} (hL : env.cfg.L ≤ 255) {slot : Option Core} {c : Core} {f : Step}
-    (h : ApiStep env.cfg w env slot c f) :
+theorem apiStep_guard_bound {w : World} {env : Env} (hL : env.cfg.L ≤ 255) {tag : ApiTag} {slot : Option Core} {c : Core} {f : Step}
+    (h : ApiStep env.cfg w env tag slot c f) :
     countM .exitGuard (guardSig (f { core := c }).2) ≤ env.cfg.L ∧
     countM .entryGuard (guardSig (f { core := c }).2) ≤ 2 * (env.cfg.L + 1) := by
   have quiet : ∀ {g : Step}, NoGuard g → countM .exitGuard (guardSig (g { core := c }).2) ≤ env.cfg.L ∧
@@ -480,7 +488,8 @@ theorem apiStep_guard_bound {w : World} {env : Env} (hL : env.cfg.L ≤ 255) {sl
     intro s
     show (logEv env s.core _).filter Ev.isGuard = []
     exact filter_logEv methodPred_isGuard env _ _
-  | planEdit c a hp => exact quiet (silent_applyAction methodPred_isGuard env 255 a)
+  | planAppend c o d p hp => exact quiet (silent_applyAction methodPred_isGuard env 255 _)
+  | planEdit c a _ hp => exact quiet (silent_applyAction methodPred_isGuard env 255 a)
   | load => exact quiet (noGuard_load env _)
   | replayEnter => exact quiet (noGuard_replayEnter env _)
   | replayClear => exact quiet (silent_modifyCore _ _)
@@ -503,7 +512,7 @@ theorem C04_history_guard_bound (cfg : Cfg) (hL : cfg.L ≤ 255) (beh : Beh) (w 
   | step op' hs hd =>
     cases hs with
     | rejected name => exact nil
-    | call slot c f ret name hget hf =>
+    | call tag slot c f ret name htag hget hf =>
       rw [onCore_snd, guardSig_append]
       have : guardSig [Ev.api op.inst k name (apiObs cfg (f { core := c }).1.core (ret (f { core := c }).1.core))] = [] := rfl
       rw [this, List.append_nil]
@@ -542,6 +551,286 @@ theorem C12_history_roundtrip (cfg : Cfg) (hwf : cfg.WF) (beh : Beh) (ops : List
       · simp [ha] at h2
     rw [ha]
     exact C12_roundtrip_inactive ⟨cfg, beh, i, k⟩ hwf hm sc ha { core := c }
+
+/-! ### C09 on the event level: plan outcome callbacks per API call -/
+
+/-- a delivery of `planFailed` / `planSucceeded` -/
+def Ev.isOutcome : Ev → Bool
+  | .cb k _ _ => k.method == .planFailed || k.method == .planSucceeded
+  | _ => false
+
+theorem methodPred_isOutcome : MethodPred Ev.isOutcome :=
+  ⟨fun e h => by cases e <;> simp_all [Ev.isOutcome, Ev.isCb], fun k k' _ _ _ _ h => by simp [Ev.isOutcome, h]⟩
+
+theorem outcome_excl {m : Method} (h1 : m ≠ .planFailed) (h2 : m ≠ .planSucceeded) : Excl Ev.isOutcome m := by
+  intro k _ _ hk
+  simp [Ev.isOutcome, hk, h1, h2]
+
+theorem exclCore_isOutcome : ExclCore Ev.isOutcome :=
+  ⟨outcome_excl (by decide) (by decide), outcome_excl (by decide) (by decide), outcome_excl (by decide) (by decide),
+   outcome_excl (by decide) (by decide), outcome_excl (by decide) (by decide)⟩
+
+theorem outcomes_append (a b : List Ev) : outcomes (a ++ b) = outcomes a ++ outcomes b := by
+  simp [outcomes, ownSig_append, List.filterMap_append]
+
+theorem outcomes_of_silent {es : List Ev} (h : es.filter Ev.isOutcome = []) : outcomes es = [] := by
+  induction es with
+  | nil => rfl
+  | cons e es ih =>
+    simp only [List.filter_cons] at h
+    split at h
+    · cases h
+    · rename_i hne
+      show outcomes ([e] ++ es) = []
+      rw [outcomes_append, ih h, List.append_nil]
+      cases e with
+      | cb k v o =>
+        simp only [Ev.isOutcome] at hne
+        simp only [outcomes, ownSig, List.filterMap_cons, List.filterMap_nil, ownSigEv]
+        have hf : (k.method == Method.planFailed || k.method == Method.planSucceeded) = false := by simpa using hne
+        by_cases hl : (k.layer == Ancestors.Layer.own) = true
+        · simp only [hl, if_true, List.filterMap_cons, List.filterMap_nil]
+          simp only [Bool.or_eq_false_iff, beq_eq_false_iff_ne] at hf
+          simp [hf.1, hf.2]
+        · simp [hl]
+      | act k a => rfl
+      | log i r => rfl
+      | api i o n ob => rfl
+      | rejected i o n => rfl
+
+theorem outcomes_step_of_silent {f : Step} (h : Silent Ev.isOutcome f) (s : St) : outcomes (f s).2 = [] := outcomes_of_silent (h s)
+
+/-- everything of `update()` / `react()` other than the plan step delivers no outcome callback: the call's
+    outcome callbacks are exactly those of its plan step -/
+theorem outcomes_cycle (env : Env) (pre mid post : Method)
+    (h1 : Excl Ev.isOutcome pre) (h2 : Excl Ev.isOutcome mid) (h3 : Excl Ev.isOutcome post) (s : St) :
+    (outcomes (cycle env pre mid post s).2).length ≤ 1 := by
+  have hph : ∀ m hf, Excl Ev.isOutcome m → Silent Ev.isOutcome (phase env m hf) :=
+    fun m hf hm => silent_phase methodPred_isOutcome env m hm hf
+  unfold cycle
+  simp only [Step.seq, Step.modify, List.nil_append, outcomes_append]
+  rw [outcomes_step_of_silent (hph pre true h1), outcomes_step_of_silent (hph mid true h2),
+    outcomes_step_of_silent (hph post false h3), outcomes_step_of_silent (silentG_processRequest methodPred_isOutcome exclCore_isOutcome env)]
+  simp only [List.nil_append, List.append_nil]
+  split
+  · exact C09_exclusive env _
+  · simp [skip, outcomes, ownSig]
+
+/-- **C09 over whole histories: at most one plan outcome callback per API call**, and none at all outside
+    `update()` / `react()` — in every call of every history, from any world -/
+theorem C09_history_at_most_one (cfg : Cfg) (beh : Beh) (w : World) (k : Nat) (op : Op) :
+    (outcomes (stepAll cfg beh w k op).2).length ≤ 1 ∧
+    ((∀ i, op ≠ .update i) → (∀ i, op ≠ .react i) → outcomes (stepAll cfg beh w k op).2 = []) := by
+  have h := stepAll_shape cfg beh w k op
+  generalize hr : stepAll cfg beh w k op = r at h
+  have nil : (outcomes ([] : List Ev)).length ≤ 1 := by simp [outcomes, ownSig]
+  have hp := methodPred_isOutcome
+  have hx := exclCore_isOutcome
+  have none_of : ∀ {f : Step} (c : Core) (i : Nat) (name : String) (ret : Core → Option Bool),
+      Silent Ev.isOutcome f → outcomes (onCore cfg w i k name c f ret).2 = [] := by
+    intro f c i name ret hf
+    rw [onCore_snd, outcomes_append, outcomes_step_of_silent hf]
+    rfl
+  cases h with
+  | copy src sc hop h1 h2 => exact ⟨nil, fun _ _ => rfl⟩
+  | step op' hs hd =>
+    cases hs with
+    | rejected name => exact ⟨nil, fun _ _ => rfl⟩
+    | destroyManual c name hop hm hget => exact ⟨nil, fun _ _ => rfl⟩
+    | destroyAuto c name hm hget =>
+      have : outcomes ((finalExit ⟨cfg, beh, op.inst, k⟩ { core := c }).2 ++
+          [Ev.api op.inst k name (apiObs cfg (finalExit ⟨cfg, beh, op.inst, k⟩ { core := c }).1.core)]) = [] := by
+        rw [outcomes_append, outcomes_step_of_silent (silentG_finalExit hp hx _)]; rfl
+      rw [this]; exact ⟨nil, fun _ _ => rfl⟩
+    | save c name o hget => exact ⟨nil, fun _ _ => rfl⟩
+    | call tag slot c f ret name htag hget hf =>
+      have quiet : Silent Ev.isOutcome f → (outcomes (onCore cfg w op.inst k name c f ret).2).length ≤ 1 ∧
+          ((∀ i, op ≠ .update i) → (∀ i, op ≠ .react i) → outcomes (onCore cfg w op.inst k name c f ret).2 = []) := by
+        intro hs
+        rw [none_of c op.inst name ret hs]
+        exact ⟨nil, fun _ _ => rfl⟩
+      cases hf with
+      | constructManual => exact quiet (silent_skip _)
+      | constructAuto => exact quiet (silentG_initialEnter hp hx _)
+      | enter => exact quiet (silentG_initialEnter hp hx _)
+      | exit => exact quiet (silentG_finalExit hp hx _)
+      | update c ha =>
+        have e : outcomes [Ev.api op.inst k name (apiObs cfg (update ⟨cfg, beh, op.inst, k⟩ { core := c }).1.core
+            (ret (update ⟨cfg, beh, op.inst, k⟩ { core := c }).1.core))] = [] := rfl
+        refine ⟨?_, fun hu hre => ?_⟩
+        · rw [onCore_snd, outcomes_append, e, List.append_nil]
+          exact outcomes_cycle ⟨cfg, beh, op.inst, k⟩ .preUpdate .update .postUpdate
+            (outcome_excl (by decide) (by decide)) (outcome_excl (by decide) (by decide)) (outcome_excl (by decide) (by decide)) { core := c }
+        · exfalso
+          have hop' : ∃ i, op' = .update i := by cases op' <;> simp [Op.tag] at htag <;> exact ⟨_, rfl⟩
+          obtain ⟨i, rfl⟩ := hop'
+          rcases hd with rfl | ⟨_, h2⟩
+          · exact hu i rfl
+          · simp [Op.tag] at h2
+      | react c ha =>
+        have e : outcomes [Ev.api op.inst k name (apiObs cfg (react ⟨cfg, beh, op.inst, k⟩ { core := c }).1.core
+            (ret (react ⟨cfg, beh, op.inst, k⟩ { core := c }).1.core))] = [] := rfl
+        refine ⟨?_, fun hu hre => ?_⟩
+        · rw [onCore_snd, outcomes_append, e, List.append_nil]
+          exact outcomes_cycle ⟨cfg, beh, op.inst, k⟩ .preReact .react .postReact
+            (outcome_excl (by decide) (by decide)) (outcome_excl (by decide) (by decide)) (outcome_excl (by decide) (by decide)) { core := c }
+        · exfalso
+          have hop' : ∃ i, op' = .react i := by cases op' <;> simp [Op.tag] at htag <;> exact ⟨_, rfl⟩
+          obtain ⟨i, rfl⟩ := hop'
+          rcases hd with rfl | ⟨_, h2⟩
+          · exact hre i rfl
+          · simp [Op.tag] at h2
+      | query => exact quiet (silentG_query hp (outcome_excl (by decide) (by decide)) _)
+      | change => exact quiet (silentG_extChange hp _ _ _)
+      | immediate => exact quiet (Silent.seq (silentG_extChange hp _ _ _) (silentG_processRequest hp hx _))
+      | status => exact quiet (silentG_extStatus hp _ _ _)
+      | planAppend => exact quiet (silent_applyAction hp _ _ _)
+      | planEdit => exact quiet (silent_applyAction hp _ _ _)
+      | load => exact quiet (silentG_load hp hx _ _)
+      | replayEnter => exact quiet (silentG_replayEnter hp hx _ _)
+      | replayClear => exact quiet (silent_modifyCore _ _)
+      | replayTransition => exact quiet (silentG_replayTransition hp hx _ _)
+      | attachLogger => exact quiet (silent_modifyCore _ _)
+
+/-! ### C09: never on a machine to which no task was added -/
+
+/-- `update()` / `react()` on a core whose `planExists` flag is down: no outcome callback, flag still down -/
+theorem cycle_noPlan (env : Env) (hb : NoAppendBeh env) (pre mid post : Method)
+    (h1 : Excl Ev.isOutcome pre) (h2 : Excl Ev.isOutcome mid) (h3 : Excl Ev.isOutcome post) (s : St) (h : NoPlanQ s.core) :
+    (cycle env pre mid post s).2.filter Ev.isOutcome = [] ∧ NoPlanQ (cycle env pre mid post s).1.core := by
+  have hp := methodPred_isOutcome
+  let P1 : Step := Step.modify (fun s => { s with ts := .none }) ⋙ phase env pre true ⋙ phase env mid true ⋙ phase env post false
+  have hP1s : Silent Ev.isOutcome P1 :=
+    Silent.seq (Silent.seq (Silent.seq (silent_modify _ _) (silent_phase hp env pre h1 _)) (silent_phase hp env mid h2 _)) (silent_phase hp env post h3 _)
+  have hP1k : Keeps NoPlanQ P1 :=
+    Keeps.seq (Keeps.seq (Keeps.seq (keeps_modify fun _ => rfl) (keepsNP_phase env hb _ _)) (keepsNP_phase env hb _ _)) (keepsNP_phase env hb _ _)
+  have hq1 := hP1k s h
+  have e : cycle env pre mid post = P1 ⋙ (if env.cfg.plans then planStep env else skip) ⋙ processRequest env := rfl
+  rw [e]
+  simp only [Step.seq, List.filter_append, hP1s s, List.nil_append]
+  have hmid : ((if env.cfg.plans then planStep env else skip) (P1 s).1).2 = [] ∧
+      NoPlanQ ((if env.cfg.plans then planStep env else skip) (P1 s).1).1.core := by
+    split
+    · exact planStep_noPlan env _ hq1
+    · exact ⟨rfl, hq1⟩
+  rw [hmid.1]
+  exact ⟨silentG_processRequest hp exclCore_isOutcome env _, keepsNP_processRequest env hb _ hmid.2⟩
+
+theorem query_keepsNP (env : Env) (hb : NoAppendBeh env) : Keeps NoPlanQ (query env) := by
+  unfold query
+  exact keeps_dep fun s0 => Keeps.seq (keepsNP_deliver env hb _ _ _ _) (keepsNP_deliver env hb _ _ _ _)
+
+/-- an accepted call other than `plan().change…()`, on a core whose flag is down, by an instance whose
+    callbacks append no task: no outcome callback is delivered and the flag stays down -/
+theorem apiStep_noPlan {w : World} {env : Env} (hb : NoAppendBeh env) {tag : ApiTag} {slot : Option Core} {c : Core} {f : Step}
+    (h : ApiStep env.cfg w env tag slot c f) (htag : tag ≠ .planAppend) (hc : NoPlanQ c) :
+    (f { core := c }).2.filter Ev.isOutcome = [] ∧ NoPlanQ (f { core := c }).1.core := by
+  have hp := methodPred_isOutcome
+  have hx := exclCore_isOutcome
+  have ex : ∀ {m : Method}, m ≠ .planFailed → m ≠ .planSucceeded → Excl Ev.isOutcome m := fun a b => outcome_excl a b
+  cases h with
+  | constructManual => exact ⟨rfl, hc⟩
+  | constructAuto => exact ⟨silentG_initialEnter hp hx env _, keepsNP_initialEnter env hb _ hc⟩
+  | enter => exact ⟨silentG_initialEnter hp hx env _, keepsNP_initialEnter env hb _ hc⟩
+  | exit => exact ⟨silentG_finalExit hp hx env _, keepsNP_finalExit env hb _ hc⟩
+  | update => exact cycle_noPlan env hb _ _ _ (ex (by decide) (by decide)) (ex (by decide) (by decide)) (ex (by decide) (by decide)) _ hc
+  | react => exact cycle_noPlan env hb _ _ _ (ex (by decide) (by decide)) (ex (by decide) (by decide)) (ex (by decide) (by decide)) _ hc
+  | query => exact ⟨silentG_query hp (ex (by decide) (by decide)) env _, query_keepsNP env hb _ hc⟩
+  | change => exact ⟨silentG_extChange hp env _ _ _, hc⟩
+  | immediate c d p =>
+    exact ⟨(Silent.seq (silentG_extChange hp env d p) (silentG_processRequest hp hx env)) _,
+      (Keeps.seq (keepsNP_extChange env d p) (keepsNP_processRequest env hb)) _ hc⟩
+  | status => exact ⟨silentG_extStatus hp env _ _ _, keepsNP_extStatus env _ _ _ hc⟩
+  | planAppend => exact absurd rfl htag
+  | planEdit c a ha _ => exact ⟨silent_applyAction hp env 255 a _, keepsNP_applyAction env 255 a ha _ hc⟩
+  | load => exact ⟨silentG_load hp hx env _ _, keepsNP_load env hb _ _ hc⟩
+  | replayEnter => exact ⟨silentG_replayEnter hp hx env _ _, keepsNP_replayEnter env hb _ _ hc⟩
+  | replayClear => exact ⟨rfl, hc⟩
+  | replayTransition => exact ⟨silentG_replayTransition hp hx env _ _, keepsNP_replayTransition env hb _ _ hc⟩
+  | attachLogger => exact ⟨rfl, hc⟩
+
+/-- the slot of instance `i` holds no machine, or one whose `planExists` flag is down -/
+def SlotNoPlan (w : World) (i : Nat) : Prop := ∀ c, w.get i = some c → NoPlanQ c
+
+theorem stepAll_noPlan (cfg : Cfg) (beh : Beh) (w : World) (k : Nat) (op : Op) (i : Nat)
+    (hbeh : ∀ key : Key, key.inst = i → ∀ a ∈ beh key, a.isAppend = false)
+    (hop : ∀ o d p, op ≠ .planAppend i o d p) (hcopy : ∀ src, op ≠ .copy i src) (hw : SlotNoPlan w i) :
+    SlotNoPlan (stepAll cfg beh w k op).1 i ∧
+    ∀ e ∈ (stepAll cfg beh w k op).2, e.inst = i → e.isOutcome = false := by
+  by_cases hi : op.inst = i
+  · subst hi
+    have h := stepAll_shape cfg beh w k op
+    generalize stepAll cfg beh w k op = r at h
+    have none_out : ∀ {es : List Ev}, es.filter Ev.isOutcome = [] → ∀ e ∈ es, e.inst = op.inst → e.isOutcome = false := by
+      intro es h0 e he _
+      cases hb : e.isOutcome
+      · rfl
+      · have : e ∈ es.filter Ev.isOutcome := List.mem_filter.mpr ⟨he, hb⟩
+        rw [h0] at this; cases this
+    cases h with
+    | copy src sc hcp h1 h2 => exact absurd hcp (hcopy src)
+    | step op' hs hd =>
+      cases hs with
+      | rejected name => exact ⟨hw, none_out rfl⟩
+      | destroyManual c name hop' hm hget =>
+        refine ⟨fun c' hc' => ?_, none_out (es := [Ev.api op.inst k name (apiObs cfg c)]) rfl⟩
+        rw [World.get_put_same] at hc'; cases hc'
+      | destroyAuto c name hm hget =>
+        refine ⟨fun c' hc' => ?_, none_out ?_⟩
+        · rw [World.get_put_same] at hc'; cases hc'
+        · rw [List.filter_append, silentG_finalExit methodPred_isOutcome exclCore_isOutcome _ _]
+          rfl
+      | save c name o hget => exact ⟨hw, none_out rfl⟩
+      | call tag slot c f ret name htag hget hf =>
+        have htag' : tag ≠ .planAppend := by
+          intro e
+          subst e
+          have hop' : ∃ o d p, op' = .planAppend op'.inst o d p := by
+            cases op' <;> simp [Op.tag] at htag
+            exact ⟨_, _, _, rfl⟩
+          rcases hd with rfl | ⟨_, h2⟩
+          · obtain ⟨o, d, p, e⟩ := hop'
+            exact hop o d p e
+          · obtain ⟨o, d, p, e⟩ := hop'
+            rw [e] at h2; simp [Op.tag] at h2
+        have hc : NoPlanQ c := by
+          cases hf with
+          | constructManual => rfl
+          | constructAuto => rfl
+          | _ => exact hw _ hget
+        obtain ⟨a1, a2⟩ := apiStep_noPlan (env := ⟨cfg, beh, op.inst, k⟩) (fun key hk a ha => hbeh key hk a ha) hf htag' hc
+        refine ⟨fun c' hc' => ?_, none_out ?_⟩
+        · rw [onCore_fst, World.get_put_same] at hc'
+          cases hc'; exact a2
+        · rw [onCore_snd, List.filter_append, a1]; rfl
+  · have hev := stepAll_events_inst cfg beh w k op
+    refine ⟨fun c hc => hw c (by rw [stepAll_other cfg beh w k op i (fun e => hi e.symm)] at hc; exact hc), ?_⟩
+    intro e he hei
+    exact absurd ((hev e he).symm.trans hei) hi
+
+/-- **C09 over whole histories — never on a machine to which no task was added.**  If neither the callbacks
+    of instance `i` nor any API call ever append a task to `i`'s plan (and `i` is not created as a copy of a
+    machine that has one), then in no history, whatever statuses are reported, whatever the storage held
+    before, is `planSucceeded()` or `planFailed()` ever delivered to `i`. -/
+theorem C09_history_never_without_task (cfg : Cfg) (beh : Beh) (ops : List Op) (i : Nat)
+    (hbeh : ∀ key : Key, key.inst = i → ∀ a ∈ beh key, a.isAppend = false)
+    (hops : ∀ o d p, Op.planAppend i o d p ∉ ops) (hcopy : ∀ src, Op.copy i src ∉ ops) :
+    ∀ e ∈ (run cfg beh ops).2, e.inst = i → e.isOutcome = false := by
+  have gen : ∀ (ops : List Op) (w : World) (k : Nat), SlotNoPlan w i →
+      (∀ o d p, Op.planAppend i o d p ∉ ops) → (∀ src, Op.copy i src ∉ ops) →
+      ∀ e ∈ (runFrom cfg beh w k ops).2, e.inst = i → e.isOutcome = false := by
+    intro ops
+    induction ops with
+    | nil => intro w k _ _ _ e he; cases he
+    | cons op ops ih =>
+      intro w k hw h1 h2 e he hei
+      obtain ⟨s1, s2⟩ := stepAll_noPlan cfg beh w k op i hbeh
+        (fun o d p e' => h1 o d p (by rw [← e']; simp)) (fun src e' => h2 src (by rw [← e']; simp)) hw
+      simp only [runFrom, List.mem_append] at he
+      rcases he with he | he
+      · exact s2 e he hei
+      · exact ih _ _ s1 (fun o d p h => h1 o d p (List.mem_cons_of_mem _ h)) (fun src h => h2 src (List.mem_cons_of_mem _ h)) e he hei
+  exact gen ops [] 0 (fun c hc => by simp [World.get] at hc) hops hcopy
 
 /-- non-vacuity: two instances interleaved, a copy, a vetoed request; instance 0's path is paired and the
     hypotheses of `C01_history` hold for it -/
